@@ -90,11 +90,11 @@ def run(ctx, rep):
         policy = dict(a_size=True)
         seen, n_sites, n_lossy = CR.run_census(fx, rep, "C13.census", roots, policy, sfx=sfx, cast_policy=cast_policy)
         if not feat:
-            rep.floor("C13.census", n_sites, 35, "census sites reachable from the API (counted on the repaired tree: 37)")
-            rep.floor("C13.casts", n_lossy, 17, "narrowing casts on the write path (17 counted)")
-            rep.floor("C13.reach", len(seen), 100, "bodies reachable from the API")
+            rep.floor("C13.census", n_sites, 24, "census sites reachable from the API (37 counted on the repaired tree; a refactor may remove some)")
+            rep.floor("C13.casts", n_lossy, 8, "narrowing casts on the write path (17 counted; a refactor may remove some)")
+            rep.floor("C13.reach", len(seen), 80, "bodies reachable from the API")
             n_loops = R12.check_loops(fx, rep, "C13.loops", seen)
-            rep.floor("C13.loops", n_loops, 14, "loops on the API paths")
+            rep.floor("C13.loops", n_loops, 9, "loops on the API paths (17 counted)")
     if ctx.tier == "thorough":
         # walker cross-check over EVERY body of the three crates (not only the reachable ones)
         fx = ctx.facts("")
